@@ -48,6 +48,20 @@ def strfu(data):
         i += 1
     return [max(0x20, c) for c in data[i:]]
 
+def nuid_of(s):
+    """station id libzvbi derives from the call letters (or, without them, the name): a 7-bit-at-a-time
+    CRC with polynomial table entry xor of 0x48000000 >> j over the set bits j of the index,
+    reduced to 31 bits with bit 30 set (caption.c init_hcrc / xds_decoder)"""
+    sm = 0
+    for c in s:
+        i = (sm ^ c) & 0x7F
+        h = 0
+        for j in range(7):
+            if i & (1 << j):
+                h ^= 0x48000000 >> j
+        sm = (sm >> 7) ^ h
+    return (sm & 0x7FFFFFFF) | 0x40000000
+
 def reference(pairs, mode, alias=False, reject_kills=False):
     """The receiver the property describes, run over raw byte pairs.
     -> (deliveries [(cls, sub, bytes)], conformant)
@@ -62,7 +76,8 @@ def reference(pairs, mode, alias=False, reject_kills=False):
       swallowed without effect on other packets.
     mode 's' (caption.c) adds the documented routing: while no XDS packet is open (after an end
     pair or a caption control code) only pairs whose readable first byte is 0x01..0x0F are XDS,
-    and the documented flush of all buffers when a changed network name is announced.
+    and the documented flush of all buffers when a different network (id derived from call
+    letters / name) is announced.
     `conformant` is False when the stream contains an end pair directly in caption context while
     a packet is interrupted (no sender does that; caption.c then closes the interrupted packet).
     Variants name the known deviations: alias = key by the demux buffer index, reject_kills = an
@@ -71,7 +86,7 @@ def reference(pairs, mode, alias=False, reject_kills=False):
     open_, cur, label, stale = {}, None, None, None
     xds_on, conformant = False, True
     out = []
-    net = {"name": [], "call": [], "cycle": 0, "nuid": False}
+    net = {"name": [], "call": [], "cycle": 0, "nuid": 0}
     def key(c, t):
         return (c, d_remap(t)) if alias else (c, t)
     for b1, b2 in pairs:
@@ -126,9 +141,12 @@ def reference(pairs, mode, alias=False, reject_kills=False):
                     if t != net["name"]:
                         net["name"], net["cycle"] = t, 1
                     elif net["cycle"] == 1:
-                        if net["nuid"]:
-                            open_.clear()
-                        net["nuid"], net["cycle"] = True, 3
+                        nid = nuid_of(net["call"] or t)
+                        if nid != net["nuid"]:          # a different station: everything is flushed
+                            if net["nuid"]:
+                                open_.clear()
+                            net["nuid"] = nid
+                        net["cycle"] = 3
                 elif mode == "s" and label == (2, 2):
                     t = strfu(data)
                     if t != net["call"]:
